@@ -1012,10 +1012,9 @@ func (s *storage) RemoveBlobs(ctx context.Context, blobs []blob.Ref) error {
 	//  -- iterate over the zip's blobs (at some point). If all are marked deleted, actually RemoveBlob
 	//     on big to delete the full zip and then delete all the meta rows.
 	var (
-		mu       sync.Mutex
-		unpacked []blob.Ref
-		packed   []blob.Ref
-		large    = map[blob.Ref]bool{} // the large blobs that packed are in
+		mu     sync.Mutex
+		packed []blob.Ref
+		large  = map[blob.Ref]bool{} // the large blobs that packed are in
 	)
 	var grp syncutil.Group
 	delGate := syncutil.NewGate(removeLookups)
@@ -1032,8 +1031,6 @@ func (s *storage) RemoveBlobs(ctx context.Context, blobs []blob.Ref) error {
 			if m.isPacked() {
 				packed = append(packed, br)
 				large[m.largeRef] = true
-			} else {
-				unpacked = append(unpacked, br)
 			}
 			return nil
 		})
@@ -1041,11 +1038,13 @@ func (s *storage) RemoveBlobs(ctx context.Context, blobs []blob.Ref) error {
 	if err := grp.Err(); err != nil {
 		return err
 	}
-	if len(unpacked) > 0 {
-		grp.Go(func() error {
-			return s.small.RemoveBlobs(ctx, unpacked)
-		})
-	}
+	// Remove all of them from small, also the packed ones: a packed
+	// blob can still have a loose copy there (if we died after writing
+	// the zip's meta rows but before deleting the loose blobs), and
+	// that copy would keep the removed blob visible.
+	grp.Go(func() error {
+		return s.small.RemoveBlobs(ctx, blobs)
+	})
 	if len(packed) > 0 {
 		grp.Go(func() error {
 			bm := s.meta.BeginBatch()
